@@ -24,6 +24,7 @@ from mc.core import Acc, Violation, worker_scratch, exc_signature
 from mc.datasets import gen_psms, make_dataset, set_chunks, DEFAULT_CHUNKS, write_table
 
 PROPERTY = "C09"
+SIZE_MODULES = ['mokapot.confidence', 'mokapot.mokapot', 'mokapot.brew_rollup', 'mokapot.tabular_data', 'mokapot.streaming']  # see mc.runner._sized_passes
 LEVEL = "fault_enumeration"
 RULE = (
     "state = {file name -> content} of destination + input directory; transitions = (run configuration, index of "
